@@ -5,6 +5,7 @@
 import Pyab.Model.Choice
 import Pyab.Spec.Interval
 import Pyab.Proofs.Choice
+import Pyab.Properties.C03_float
 namespace Pyab.Properties
 open Pyab Pyab.Spec
 
